@@ -16,10 +16,11 @@ Ins(op, a, b, c, s) == [op |-> op, a |-> a, b |-> b, c |-> c, s |-> s, nk |-> 0,
 VocabSys == {Ins("Y", 0, 0, "", ""), Ins("Y", U, 0, "", ""), Ins("Y", 2 * U, 0, "", ""), Ins("S", U, 0, "", "/a"),
              Ins("P", 0, 0, "", "r2")}
 VocabT1  == {Ins("Y", 0, 0, "", ""), Ins("Y", U, 0, "", ""), Ins("Y", 2 * U, 0, "", ""), Ins("S", 0, 1, "", "/b"),
-             Ins("T", 2, 1, "t1", ""), Ins("T", 1, 1, "t1", ""), Ins("X", 0, 0, "", "r3"), Ins("Z", 0, 0, "", "r3")}
+             Ins("T", 2, 1, "t1", ""), Ins("T", 1, 1, "t1", ""), Ins("X", 0, 0, "", "r3"), Ins("Z", 0, 0, "", "r3"),
+             Ins("G", 1, 0, "", "c1"), Ins("ST", 0, 0, "", "r3")}
 Bodies(V, m) == UNION {[1..n -> V] : n \in 0..m}
 Kid == <<Ins("Y", U, 0, "", ""), Ins("S", 0, 0, "", "/c")>>
-Kid3 == <<Ins("Y", U, 0, "", ""), Ins("Y", 2 * U, 0, "", "")>>
+Kid3 == <<Ins("Y", U, 0, "", ""), Ins("W", 0, 0, "", "c1"), Ins("Y", 2 * U, 0, "", "")>>
 Programs == {[clocks |-> [t1 |-> <<1, 1>>],
               routines |-> [r0 |-> b0, r1 |-> b1, r2 |-> Kid, r3 |-> Kid3],
               main |-> <<Ins("P", 0, 0, "sys", "r0"), Ins("P", 0, 0, "t1", "r1"), Ins("P", 0, 0, "t1", "r3")>>]
